@@ -317,6 +317,31 @@ pub fn build_op(
                 .map(|_| f_zip_anon())
                 .boxed()
         }
+        UOp::SplitJoin { kind, local, m } => {
+            let mut parts = s.split(2).into_iter();
+            let a = parts.next().unwrap();
+            let b = parts.next().unwrap().map(move |r| f_rekey(r, m));
+            let kf = |x: &Rec| x.k;
+            let inner = |(_, (l, r)): (u32, (Rec, Rec))| f_join_inner(&l, &r);
+            let left = |(_, (l, r)): (u32, (Rec, Option<Rec>))| match r {
+                Some(r) => f_join_inner(&l, &r),
+                None => f_join_left_only(&l),
+            };
+            let outer = |(_, (l, r)): (u32, (Option<Rec>, Option<Rec>))| match (l, r) {
+                (Some(l), Some(r)) => f_join_inner(&l, &r),
+                (Some(l), None) => f_join_left_only(&l),
+                (None, Some(r)) => f_join_right_only(&r),
+                (None, None) => unreachable!(),
+            };
+            match (local, kind) {
+                (JoinLocal::Hash, JoinKind::Inner) => a.join_with(b, kf, kf).ship_hash().local_hash().inner().unkey().map(inner).boxed(),
+                (JoinLocal::Hash, JoinKind::Left) => a.join_with(b, kf, kf).ship_hash().local_hash().left().unkey().map(left).boxed(),
+                (JoinLocal::Hash, JoinKind::Outer) => a.join_with(b, kf, kf).ship_hash().local_hash().outer().unkey().map(outer).boxed(),
+                (JoinLocal::SortMerge, JoinKind::Inner) => a.join_with(b, kf, kf).ship_hash().local_sort_merge().inner().unkey().map(inner).boxed(),
+                (JoinLocal::SortMerge, JoinKind::Left) => a.join_with(b, kf, kf).ship_hash().local_sort_merge().left().unkey().map(left).boxed(),
+                (JoinLocal::SortMerge, JoinKind::Outer) => a.join_with(b, kf, kf).ship_hash().local_sort_merge().outer().unkey().map(outer).boxed(),
+            }
+        }
         UOp::Replay { rounds, body, stop_m, stop_r } => {
             let init = LState::default();
             let cx2 = cx.clone();
